@@ -172,6 +172,7 @@ class Cache:
     def __init__(self, job):
         from apischema import ValidationError
 
+        self.method_note = 'enumeration of interference points (access index x interfering type) by forks over the real code; compile-time only, no symbolic datum'
         self.job = job
         P = PROGRAMS[job["pid"]]
         self.mod = exec_module("vf_c20", HEAD + P["src"])
@@ -336,6 +337,7 @@ class Lazy:
     def __init__(self, job):
         from apischema import ValidationError, deserialization_method, serialization_method
 
+        self.method_note = 'interference inside RecMethod.lazy() with symbolic data for both calls'
         self.job = job
         P = PROGRAMS[job["pid"]]
         self.mod = exec_module("vf_c20l", HEAD + P["src"])
